@@ -116,10 +116,7 @@ def run(ctx):
     pp = fx.adts.get("pkgpath::PkgPath")
     ctx.check(pp is not None and [f["name"] for f in pp["variants"][0]["fields"]] == ["short", "full"], "D2-DERIVED", "pkgpath::PkgPath", "fields", "fields (short, full)", "PkgPath fields changed", nontrivial=False)
     for fn, fld in (("pkgpath::PkgPath::as_path", "short"), ("pkgpath::PkgPath::as_full_path", "full"), ("depend::Depend::pattern", "pattern"), ("depend::Depend::pkgpath", "pkgpath")):
-        ps = ret_paths(ctx.paths(fn) or [])
-        b = ctx.body(fn)
-        ok = bool(ps) and all(mentions(p.end[1], lambda s: s[0] == "field" and s[3] == fld and strip_refs(s[1]) == ("param", 1)) for p in ps)
-        ctx.check(ok, "D2-ACCESSOR", fn, "returns-%s" % fld, "returns self.%s" % fld, "%s does not return self.%s" % (fn, fld), fn_span(b) if b else "")
+        accessor_faithful(ctx, "D2-ACCESSOR", fn, fld)
     FS = "<pkgpath::PkgPath as std::str::FromStr>::from_str"
     ps = ret_paths(ctx.paths(FS) or [])
     ok = bool(ps) and all(is_call(p.end[1], NEW) and strip_refs(call_args(p.end[1])[0]) == ("param", 1) for p in ps)
